@@ -22,6 +22,11 @@ func checkC12(p *Prog, r *Report) {
 	ruleC12Body(p, a, r)
 	ruleC12Valid(p, a, r)
 	ruleCtxMergeOrder(p, a, r, "R-C12-ORDER")
+	r.Begin("R-C12-MACRO-ANCHORS", "macro body executor found by role", 1)
+	if ma := resolveMacroAnchors(p, a, r); ma != nil {
+		r.Trivial("anchors", "-", "%d macro body executor(s)", len(ma.bodies))
+		ruleMacroBindAll(p, ma, r, "R-C12-MACROBIND")
+	}
 }
 
 func isContextMapType(a *Anchors, T types.Type) bool {
